@@ -126,6 +126,64 @@ def case_saturation_long(ctx, ns, at):
         ctx.oblige("rule_implies_flag", implies(n_gt > p * nc, flags[t]), detail={"t": t})
 
 
+def case_saturation_missing_samples(ctx, nc, ns):
+    """some samples are missing (NaN, e.g. padded channels): a missing sample is not 'beyond the range', and the proportion is still
+    taken over ALL channels"""
+    import ibldsp.voltage as v
+    vals = [[ctx.real(f"d{c}_{t}", -10, 10) for t in range(ns)] for c in range(nc)]
+    miss = [[ctx.bool(f"m{c}_{t}") for t in range(ns)] for c in range(nc)]
+    d = [[core.SReal(vals[c][t].t, nan=miss[c][t].t) for t in range(ns)] for c in range(nc)]
+    data = arrays.mk([e for r in d for e in r], shape=(nc, ns), tag=np.dtype(np.float32))
+    V0 = ctx.real("V", Fraction(1, 100), 10)
+    p = ctx.real("proportion")
+    ctx.assume(and_(p > 0, p < 1))
+    flags, mute = ctx.call("saturation", v.saturation, data, V0, v_per_sec=1e9, fs=30000, proportion=p, mute_window_samples=3)      # slew limit out of reach
+    if not ctx.oblige("flag_length", tuple(flags.shape) == (ns,)):
+        return
+    k98 = 0.98
+    for t in range(ns):
+        n_over = sum([_n(and_(not_(miss[c][t]), abs(vals[c][t]) > V0 * k98)) for c in range(nc)])
+        ctx.oblige("missing_samples_do_not_change_the_denominator", core.eq(flags[t], n_over > p * nc), detail={"t": t})
+
+
+class _ApproxConvolve:
+    """scipy.signal.convolve under its documented contract only: method='auto' may pick the FFT method (it does for long inputs),
+    whose result equals the exact sums up to rounding noise - here: exact + an unknown error of at most 1e-9 per sample"""
+
+    def __init__(self, ctx):
+        self.ctx = ctx
+        self.k = 0
+
+    def __call__(self, a, b, mode="full", method="auto"):
+        exact = stubs.signal_convolve(a, b, mode=mode)
+        out = []
+        for e in np.asarray(arrays._plain(exact), dtype=object).ravel().tolist():
+            err = self.ctx.real(f"conv_err{self.k}", Fraction(-1, 10 ** 9), Fraction(1, 10 ** 9))
+            self.k += 1
+            out.append(e + err)
+        return arrays.mk(out, shape=np.shape(exact), tag=np.dtype(float))
+
+
+def case_saturation_fft_convolution(ctx, nc, ns, win):
+    """the mute gain is EXACTLY 0 on flagged samples whichever method scipy.signal.convolve picks (FFT for long arrays: rounding noise)"""
+    import ibldsp.voltage as v
+    d = [[ctx.real(f"d{c}_{t}", -10, 10) for t in range(ns)] for c in range(nc)]
+    data = arrays.mk([e for r in d for e in r], shape=(nc, ns), tag=np.dtype(np.float32))
+    V0 = ctx.real("V", Fraction(1, 100), 10)
+    p = ctx.real("proportion")
+    ctx.assume(and_(p > 0, p < 1))
+    saved = v.scipy
+    import scipy as _sp
+    v.scipy = stubs.Namespace(_sp, signal=stubs.Namespace(_sp.signal, convolve=_ApproxConvolve(ctx)))
+    try:
+        flags, mute = ctx.call("saturation", v.saturation, data, V0, v_per_sec=1e9, fs=30000, proportion=p, mute_window_samples=win)
+    finally:
+        v.scipy = saved
+    for t in range(ns):
+        ctx.oblige("flag_implies_mute_exactly_zero_whatever_the_convolution_method", implies(flags[t], core.eq(mute[t], 0)), detail={"t": t, "mute": mute[t]})
+        ctx.oblige("mute_not_negative", mute[t] >= 0, detail={"t": t})
+
+
 # ------------------------------------------------------------------------------------------------ IEEE lemma for the proportion test
 class _CountMask:
     """a (nc, ns) boolean matrix of which only the number of True per sample is known: k of nc at the single sample"""
@@ -257,6 +315,9 @@ def cases(tier):
     cs.append(Case("sat_1x3_w3_perch", "case_saturation", {"nc": 1, "ns": 3, "win": 3, "per_channel": True, "sym_fs": False}, timeout_s=900))
     cs.append(Case("sat_2x1_w3_scalar", "case_saturation", {"nc": 2, "ns": 1, "win": 3, "per_channel": False, "sym_fs": False}, timeout_s=900))
     cs.append(Case("sat_2x3_w1_scalar", "case_saturation", {"nc": 2, "ns": 3, "win": 1, "per_channel": False, "sym_fs": False}, timeout_s=900))
+    cs.append(Case("sat_3x2_missing_samples", "case_saturation_missing_samples", {"nc": 3, "ns": 2}, timeout_s=900))
+    cs.append(Case("sat_2x3_w3_fft_convolution", "case_saturation_fft_convolution", {"nc": 2, "ns": 3, "win": 3}, timeout_s=900))
+    cs.append(Case("sat_2x3_w5_fft_convolution", "case_saturation_fft_convolution", {"nc": 2, "ns": 3, "win": 5}, timeout_s=900))
     cs.append(Case("sat_2x4_w4_scalar", "case_saturation", {"nc": 2, "ns": 4, "win": 4, "per_channel": False, "sym_fs": False}, timeout_s=900))
     return cs
 
@@ -294,6 +355,36 @@ ge = np.r_[(dd >= s * 30000).sum(0), 0]; gt = np.r_[(dd > s * 30000).sum(0), 0]
 bad = [t for t in (at - 2, at - 1, at) if (flags[t] and not ge[t] > p * nc) or (gt[t] > p * nc and not flags[t])]
 print(flags[at - 3:at + 2], ge[at - 3:at + 2], bad)
 if bad: reproduced(f'slew between samples {{bad[0]}} and {{bad[0] + 1}} of a {{ns}}-sample array: flagged={{bool(flags[bad[0]])}}, channels over the slew limit: {{int(ge[bad[0]])}} of {{nc}} (proportion {{p}})')
+not_reproduced()
+"""
+    if case.endswith("missing_samples"):
+        nc, ns = params["nc"], params["ns"]
+        d = [["nan" if m.get(f"m{c}_{t}") else str(m.get(f"d{c}_{t}", 0)) for t in range(ns)] for c in range(nc)]
+        return f"""
+import ibldsp.voltage as v
+F = lambda s: float('nan') if s == 'nan' else float(Fraction(s))
+d = np.array([[F(x) for x in r] for r in {d}]); V = F({str(m['V'])!r}); p = F({str(m['proportion'])!r}); nc = {nc}
+flags, mute = v.saturation(d.copy(), V, v_per_sec=1e9, fs=30000, proportion=p, mute_window_samples=3)
+with np.errstate(invalid='ignore'):
+    n_over = (np.abs(d) > V * 0.98).sum(0)
+want = n_over > p * nc
+print(d, flags, n_over, p)
+if np.shape(flags) != want.shape or not np.array_equal(np.asarray(flags, dtype=bool), want): reproduced(f'with missing (NaN) samples the flags are {{np.asarray(flags).tolist()}}; channels beyond 98 % of range per sample: {{n_over.tolist()}} of {{nc}}, proportion {{p}}')
+not_reproduced()
+"""
+    if case.endswith("fft_convolution"):
+        win = params["win"]
+        return f"""
+import ibldsp.voltage as v
+# the symbolic instance is small; SciPy only switches to its FFT method for long inputs: same situation (same parity of the taper), long array
+bad = []
+for ns, w in ((30000, 1001 if {win} % 2 else 1000), (30000, 1501 if {win} % 2 else 1500), (60, {win})):
+    d = np.zeros((4, ns)); d[:, ns // 3: ns // 3 + 7] = 1.0; d[:, ns // 2] = 1.0
+    flags, mute = v.saturation(d.copy(), 1.0, v_per_sec=1e9, fs=30000, proportion=0.2, mute_window_samples=w)
+    fl = np.asarray(flags, dtype=bool)
+    print(ns, w, fl.sum(), np.abs(mute[fl]).max() if fl.any() else None)
+    if fl.any() and np.any(mute[fl] != 0): bad.append((ns, w, float(np.abs(mute[fl]).max())))
+if bad: reproduced(f'mute gain on flagged samples is not exactly 0 (array length, taper length, largest value): {{bad}}')
 not_reproduced()
 """
     if case.startswith("proportion_ieee"):
